@@ -504,6 +504,9 @@ pub struct Driver {
     http: Option<HttpHandle>,
     /// how body bytes are cut into chunks for Http (None = one chunk)
     pub chunker: Option<Box<dyn FnMut(&[u8]) -> Vec<bytes::Bytes> + Send>>,
+    /// when set, HTTP requests go to an external server (the real executable) instead of the
+    /// in-process service
+    pub ext: Option<Box<dyn FnMut(&HttpReq) -> HttpResp + Send>>,
     /// every raw HTTP exchange, if wanted (C14/C20)
     pub http_log: Option<Vec<(HttpReq, HttpResp)>>,
     pub reopens: u32,
@@ -543,6 +546,7 @@ impl Driver {
             server: None,
             http: None,
             chunker: None,
+            ext: None,
             http_log: None,
             reopens: 0,
         };
@@ -603,7 +607,10 @@ impl Driver {
     }
 
     pub fn http_call(&mut self, r: HttpReq) -> HttpResp {
-        let resp = self.http.as_ref().expect("http driver").call(r.clone());
+        let resp = match &mut self.ext {
+            Some(f) => f(&r),
+            None => self.http.as_ref().expect("http driver").call(r.clone()),
+        };
         if let Some(log) = &mut self.http_log {
             let mut rq = r;
             // keep logs small
@@ -616,7 +623,7 @@ impl Driver {
             }
             log.push((rq, rs));
         }
-        if resp.crashed.is_some() {
+        if resp.crashed.is_some() && self.ext.is_none() {
             // the service thread is gone; build a new one so the case can go on
             self.http = None;
             self.build();
